@@ -35,6 +35,13 @@ let handle op args =
   match op, args with
   | "rune", [b] -> let (r, n) = Utf8Model.decode_rune (bytes_of_hex b) in [hex_of_n r; string_of_int (int_of_nat n)]
   | "encstr", [a; b] -> [hex_of_bytes (append_string (bool_of_tok a) (bytes_of_hex b))]
+  (* Tier T: the translated Go source of appendString (Gen/TextEscGo.v) *)
+  | "go_encstr", [a; b] ->
+      let zs = Stdlib.List.map TextEscGoSup.byte2z (bytes_of_hex b) in
+      (match TextEscGo.go_appendString [] zs (bool_of_tok a) with
+       | GoInt.Val o -> ["ok"; hex_of_bytes (Stdlib.List.map TextEscGoSup.z2byte o)]
+       | GoInt.Panic -> ["panic"]
+       | GoInt.Fuel -> ["fuel"])
   | "decstr", [l] ->
       (match unmarshal_string (bytes_of_hex l) with
        | SOk s -> ["ok"; hex_of_bytes s]
